@@ -487,6 +487,24 @@ def S_C03c():
         return bool(img.dataobj[1, 2, 3] != full[1, 2, 3] or img.dataobj[0, 0, 0] != full[0, 0, 0])
 
 
+def S_C13a():
+    """a proxy built from an Spm99AnalyzeHeader must not follow later edits of that header's slope"""
+    nib = _nib()
+    from nibabel.arrayproxy import ArrayProxy
+    with tempfile.TemporaryDirectory() as d:
+        p = os.path.join(d, 'x.img')
+        h = nib.Spm99AnalyzeHeader()
+        h.set_data_dtype(np.int16)
+        h.set_data_shape((2, 3, 4))
+        h.set_slope_inter(2.0)
+        with open(p, 'wb') as f:
+            f.write(np.arange(24, dtype=np.int16).tobytes())
+        prox = ArrayProxy(p, h)
+        before = np.array(np.asarray(prox))
+        h.set_slope_inter(7.0)
+        return not np.array_equal(np.asarray(prox), before)
+
+
 def S_C16b():
     from nibabel.streamlines import TrkFile, TckFile, Tractogram
     sl = [np.arange(6, dtype='f4').reshape(2, 3) + i for i in range(3)]
